@@ -130,6 +130,25 @@ func runLong(vartime bool, n, recv int) string {
 	return lib.CheckPointLight(v, want)
 }
 
+// runDigits: a two-entry list whose scalars are single hexadecimal digits d1*16^i, d2*16^j (every pair of
+// window positions of the shared ladder: leading-zero skipping, first-non-zero-digit logic).
+func runDigits(vartime bool, i, j, d1, d2 int) string {
+	s1 := new(big.Int).Lsh(big.NewInt(int64(d1)), uint(4*i))
+	s2 := new(big.Int).Lsh(big.NewInt(int64(d2)), uint(4*j))
+	p1 := ref.G().Mul(big.NewInt(11))
+	p2 := ref.G()
+	want := p1.Mul(s1).Add(p2.Mul(s2))
+	scs := []*Scalar{lib.MkSC(s1), lib.MkSC(s2)}
+	pts := []*Point{lib.MkPTRep(p1, big.NewInt(3)), lib.MkPT(p2)}
+	v := new(Point)
+	if vartime {
+		v.MultiScalarMultVartime(scs, pts)
+	} else {
+		v.MultiScalarMult(scs, pts)
+	}
+	return lib.CheckPointLight(v, want)
+}
+
 func runMismatch(vartime bool, ns, np int) string {
 	scs := make([]*Scalar, ns)
 	pts := make([]*Point, np)
@@ -207,6 +226,7 @@ func register() {
 		return runMSM(d.Bool("vartime"), dEnts(d.IL("entries")), d.Bool("same_objects"), d.I("recv"))
 	})
 	mc.Register("long", func(d mc.D) string { return runLong(d.Bool("vartime"), d.I("n"), d.I("recv")) })
+	mc.Register("digits", func(d mc.D) string { return runDigits(d.Bool("vartime"), d.I("i"), d.I("j"), d.I("d1"), d.I("d2")) })
 	mc.Register("mismatch", func(d mc.D) string { return runMismatch(d.Bool("vartime"), d.I("ns"), d.I("np")) })
 	mc.Register("dsm", func(d mc.D) string {
 		return runDSM(d.Big("u1"), d.Big("u2"), lib.HexPt(d.S("p")), d.Big("z"), d.Bool("aliased"))
@@ -348,6 +368,34 @@ func main() {
 		}
 	})
 	R.Class("lists/long (5..40, 63..66, 127..130, 255..258 terms) x receiver placements", int64(len(ljs)))
+	// all pairs of digit positions (64 x 64) x digit pairs, both variants
+	type dj2 struct{ i, j int }
+	var dps []dj2
+	for i := 0; i < 64; i++ {
+		for j := 0; j < 64; j++ {
+			dps = append(dps, dj2{i, j})
+		}
+	}
+	digs := [][2]int{{1, 3}, {15, 1}}
+	if th {
+		digs = append(digs, [2]int{8, 8}, [2]int{1, 0}, [2]int{0, 7})
+	}
+	mc.Par(len(dps), func(n int) {
+		c := dps[n]
+		for _, dg := range digs {
+			if c.i == 63 && dg[0] >= 8 || c.j == 63 && dg[1] >= 8 {
+				continue // keep the scalar below n
+			}
+			for _, vt := range []bool{false, true} {
+				R.T(1)
+				if m := mc.Safe(func() string { return runDigits(vt, c.i, c.j, dg[0], dg[1]) }); m != "" {
+					R.Mismatch(fmt.Sprintf("msm/single-digit scalars/vartime=%v", vt), "digits", m, mc.D{"vartime": vt, "i": c.i, "j": c.j, "d1": dg[0], "d2": dg[1]})
+				}
+			}
+		}
+		R.State(mc.HS("digits", fmt.Sprint(c)))
+	})
+	R.Class("lists/two single-digit scalars, all 64x64 digit positions", int64(len(dps)))
 	// mismatched lengths
 	for ns := 0; ns <= 3; ns++ {
 		for np := 0; np <= 3; np++ {
